@@ -864,6 +864,11 @@ def evaluate(ctx, cases, runner):
     import time
     t0 = time.time()
     res = common.run_prog([c["src"] for c in cases], timeout=10.0, fuel=300_000)
+    # a wall-clock timeout or a dead worker can be an artefact of a loaded machine: re-run (a few of)
+    # those cases alone with a generous limit before believing them (fuel exhaustion is deterministic)
+    again = [i for i, r in enumerate(res) if r.get("status") in ("hang", "abort", "badjson")][:8]
+    for i in again:
+        res[i] = common.run_prog([cases[i]["src"]], timeout=60.0, fuel=300_000)[0]
     t1 = time.time()
     mres = common.run_model(runner, [c["model"] for c in cases]) if runner else [None] * len(cases)
     common.log(f"[C13] {len(cases)} cases: implementation {t1 - t0:.1f}s, specification runner {time.time() - t1:.1f}s")
